@@ -79,9 +79,43 @@
   expat oracle of the harness. No input was found on which the binary writes a non-well-formed auto-style block
   (`]]>`, `</style>`, `<`, `&`, CR / LF in background and font-family, on the command line and in `<config>`).
 -/
+/-
+  C02, extension 2 (Svgdx/Proofs/ThemeDefsBlock.lean): the `<defs>` block and the whole text `write_auto_styles`
+  injects (model Svgdx/Theme/Inject.lean) are well-formed content, for every theme, class list, element list and
+  author string - by structure, not by evaluation.
+
+  A definition text is described by a piece list (`Piece`: white space / start tag / empty-element tag / end tag,
+  tags as themes.rs writes them, including the blank before `>` of `<pattern … >`); `DefOk d`: `d` is the text of a
+  balanced piece list with XML Names, unique attribute names, attribute values free of `< > & ' "` and line ends,
+  ending in an end tag.  `WAcc stk s`: the recogniser accepts `s` with the elements `stk` open, also behind
+  white space (what "the rest of the document is accepted" has to mean for something to be put in front of it).
+   * `acc_rawtag`, `wacc_pieces`, `defOk_wf`: a `DefOk` text is accepted by `Xml.Spec.wfContent`;
+   * (1) `patternPieces_for`, `patternDef_ok`, `pattern_defs_wf`: the pattern definition for an ARBITRARY class the
+     builder accepts (bare class or `prefix-N` in any spelling `get_spacing` takes: `+5`, `007`), any theme, ANY
+     spacing number (no bound is needed), from the closed form `patternDef_eq` and the character facts
+     `ptnId_valCh` (letters, digits, `-`, `+`), `val_nat`, `val_fstr`, `theme_stroke_valCh`, `pattern_val_facts`;
+     `fixed_defs_ok`: the arrow marker and the two shadow filters; `build_defs_ok` / `build_defs_wf`: every element
+     of `(buildWith order cfg cs es).1`;
+   * `indentEntry_eq`: `indent_all` on a text without CR that does not end in a newline = indentation in front and
+     behind every newline; `indentEntry_pieces`: on a piece list only the white-space pieces change;
+   * (2) `defsBlock_wacc`, `defsBlock_wellformed`, `build_defsBlock_wellformed`;
+   * (3) `styleBlock_wacc` (arbitrary rule texts), `autoStyleText_wacc`, `autoStyleText_wellformed`,
+     `autoStyles_wellformed`;
+   * (4) `inject_after_root`, `inject_after_root_wf`: root start tag ++ injected text ++ rest is accepted (by
+     `wfContent` at the top level) whenever the rest is accepted inside the root (`WAcc [root] rest`), together with
+     root start tag ++ rest.
+  Hypothesis of (2) / (3) on the definitions is `DefOk`, not bare `wfContent`: `indent_all` rewrites the text
+  (blanks behind every newline, CR before LF dropped), and the recogniser is not invariant under that for arbitrary
+  well-formed text in any way that was proved here; for the definitions themes.rs can produce `DefOk` is a theorem.
+  Not proved: (4) from the bare hypothesis `wfContent (root start tag ++ rest)` (needs the inversion of the
+  recogniser at the end of a start tag and its monotonicity in the fuel); that `write remain` of a balanced event
+  list satisfies `WAcc [svg]`; the reader / writer pass the definitions go through in the code (`defsBlock` takes
+  them verbatim; the stream `auto_style_text` compares with the binary).
+-/
 import Svgdx.Proofs.RefCheck
 import Svgdx.Proofs.ThemeWf
 import Svgdx.Proofs.ThemeDefsWf
+import Svgdx.Proofs.ThemeDefsBlock
 
 #print axioms Svgdx.Props.C02Ref.check_sound
 #print axioms Svgdx.Props.C02Ref.check_every_amp
@@ -152,3 +186,28 @@ import Svgdx.Proofs.ThemeDefsWf
 #print axioms Svgdx.Theme.fixed_defs_wf
 #print axioms Svgdx.Theme.arrow_shadow_defs_wf
 #print axioms Svgdx.Theme.pattern_defs_wf_bare
+#print axioms Svgdx.Theme.acc_rawtag
+#print axioms Svgdx.Theme.wacc_pieces
+#print axioms Svgdx.Theme.defOk_wf
+#print axioms Svgdx.Theme.fixed_defs_ok
+#print axioms Svgdx.Theme.pattern_val_facts
+#print axioms Svgdx.Theme.theme_stroke_valCh
+#print axioms Svgdx.Theme.ptnId_valCh
+#print axioms Svgdx.Theme.patternPieces_render
+#print axioms Svgdx.Theme.patternPieces_for
+#print axioms Svgdx.Theme.patternDef_ok
+#print axioms Svgdx.Theme.pattern_defs_wf
+#print axioms Svgdx.Theme.build_defs_ok
+#print axioms Svgdx.Theme.build_defs_wf
+#print axioms Svgdx.Theme.indentEntry_eq
+#print axioms Svgdx.Theme.indentEntry_pieces
+#print axioms Svgdx.Theme.indentAll_wacc
+#print axioms Svgdx.Theme.defsBlock_wacc
+#print axioms Svgdx.Theme.defsBlock_wellformed
+#print axioms Svgdx.Theme.build_defsBlock_wellformed
+#print axioms Svgdx.Theme.styleBlock_wacc
+#print axioms Svgdx.Theme.autoStyleText_wacc
+#print axioms Svgdx.Theme.autoStyleText_wellformed
+#print axioms Svgdx.Theme.autoStyles_wellformed
+#print axioms Svgdx.Theme.inject_after_root
+#print axioms Svgdx.Theme.inject_after_root_wf
